@@ -33,7 +33,11 @@ RichConds ==
   \cup { <<V("l1"), Let1("l1", At("A2"))>>, <<V("l1"), Let1("l1", At("AE"))>>,
          <<And(At("A1"), Not(V("l1"))), Let1("l1", At("AE"))>>,
          <<At("A1"), Let1("g1", At("A1"))>>,                           \* shadows the global, must stay local
-         <<V("g1"), <<[n |-> "l1", c |-> At("A2")], [n |-> "g1", c |-> V("l1")]>> >> }
+         <<V("g1"), <<[n |-> "l1", c |-> At("A2")], [n |-> "g1", c |-> V("l1")]>> >>,
+         \* the same second binding text (g1 = l1) after a DIFFERENT first one: a let's value depends on the rule's own
+         \* earlier bindings, not on its text
+         <<V("g1"), <<[n |-> "l1", c |-> At("A1")], [n |-> "g1", c |-> V("l1")]>> >>,
+         <<V("g1"), <<[n |-> "l1", c |-> Not(At("A2"))], [n |-> "g1", c |-> V("l1")]>> >> }
 CondLets == IF Rich THEN RichConds ELSE {<<c, NoLets>> : c \in PlainConds}
 
 \* (category, subcategory, tags, merchant-property) profiles; a rule needs a category or tags
